@@ -34,6 +34,15 @@ func main() {
 	describe := flag.Bool("describe", false, "run every rule set on the repository and print the rule inventory (Markdown) used as DESIGN.md appendix D")
 	noEvidence := flag.Bool("no-evidence", false, "do not write the evidence file")
 	flag.Parse()
+	if v := os.Getenv("SSCHECK_INTER"); v != "" { // development aid: default call-following depth of path queries
+		fmt.Sscanf(v, "%d", &core.DefaultInter)
+	}
+	if os.Getenv("SSCHECK_DEEPALWAYS") != "" {
+		core.DeepAlways = true
+	}
+	if v := os.Getenv("SSCHECK_DEEP"); v != "" {
+		fmt.Sscanf(v, "%d", &core.DeepFind)
+	}
 	// Many GC/worker threads faulting pages concurrently is pathologically slow on this
 	// kind of VM (minutes of system time); 8 threads and a moderately lazy GC are the sweet spot.
 	if runtime.GOMAXPROCS(0) > 8 {
